@@ -125,11 +125,12 @@ UNITS = [
 # C09: agreement between generated SDKs is a statement about programs in four languages; what this sandbox can run
 # without third-party libraries is the Java SDK's types / verification / constants / stringification (javac, java)
 UNITS.append(Native(
-    "generated Java SDK against the generated Python SDK: verdicts, constants, enumeration texts", ["C09"],
+    "generated Java and C++ SDKs against the generated Python SDK: verdicts, constants, enumeration texts", ["C09"],
     "native.c09:bounded", kind="examples",
     bound="one meta-model (enumeration with a quoted literal; Formula with 18 invariants; Item with length / pattern / "
           "optional-guarded / enumeration invariants; Carton with a list of items and an optional formula; str / int "
-          "(> 2^32) / bool constants) through the Python and the Java target; 72 formulas x 10 items x 5 cartons = 87 "
-          "instances built in both SDKs; (path, description) sets of verify must be equal (message prefix and leading "
-          "dot of the path normalised); constants and literal texts equal.  JSON, TypeScript and C++ not covered",
+          "(> 2^32) / bool constants) through the Python, Java and C++ targets; 72 formulas + 10 items + 5 cartons = 87 "
+          "instances built in all three SDKs (javac / g++ -std=c++17, generated sources without third-party "
+          "libraries); (path, description) sets of the verification must be equal (message prefix and leading dot of "
+          "the path normalised); constants and literal texts equal.  JSON, XML and TypeScript not covered",
     args={}, timeout_s=1200))
